@@ -1044,16 +1044,26 @@ class MutableFileVersion:
         new_size = data.get_size() + offset
         old_size = self.get_size()
         segment_size = self._version[3]
-        num_old_segments = mathutil.div_ceil(old_size,
-                                             segment_size)
-        num_new_segments = mathutil.div_ceil(new_size,
-                                             segment_size)
-        log.msg("got %d old segments, %d new segments" % \
-                        (num_old_segments, num_new_segments))
+        if segment_size: # an empty file has segment size 0
+            num_old_segments = mathutil.div_ceil(old_size,
+                                                 segment_size)
+            num_new_segments = mathutil.div_ceil(new_size,
+                                                 segment_size)
+            log.msg("got %d old segments, %d new segments" % \
+                            (num_old_segments, num_new_segments))
 
         # We do a whole file re-encode if the file is an SDMF file.
         if self._version[2]: # version[2] == SDMF salt, which MDMF lacks
             log.msg("doing re-encode instead of in-place update")
+            return self._do_modify_update(data, offset)
+
+        # An append that starts exactly on a segment boundary (which includes
+        # any write to an empty file) starts in a segment that does not
+        # exist yet, so there is no old segment to fetch and merge with:
+        # re-encode instead.
+        if offset == old_size and (segment_size == 0 or
+                                   old_size % segment_size == 0):
+            log.msg("append at a segment boundary: doing re-encode")
             return self._do_modify_update(data, offset)
 
         # Otherwise, we can replace just the parts that are changing.
